@@ -34,5 +34,5 @@ go test -count=1 -timeout 120s $run $demo_dir 2>&1 | tail -3
 cd /verif
 echo "== check $prop with patch applied to /repo:"
 git -C /repo apply $src/patch.diff && ./check $prop 2>&1 | grep -E "VIOLATION|KNOWN|TOOL-FAULT|discharged|failed obligation" | cut -c1-260 | head -12; echo "exit=${PIPESTATUS[0]}"
-git -C /repo checkout -- .
+git -C /repo apply -R $src/patch.diff
 git -C /repo status --short | head -3
